@@ -344,7 +344,9 @@ SELF_FNS = {"is_last_allocation"}
 # zero-argument methods that are functions of the table (called with the receiver as `self`)
 RECV_FNS0 = {"is_empty"}
 # procedures: functions made of statements (let / assignment / while / calls made for their effect)
-PROCS = [("src/lib.rs", "dealloc_chunk_list", "dealloc_chunk_list")]
+#   (file, function, new name[, ("while", k)])  — with a locator only the k-th `while` statement is taken
+PROCS = [("src/lib.rs", "dealloc_chunk_list", "dealloc_chunk_list"),
+         ("src/collections/vec.rs", "partition_dedup_by", "dedup_partition_loop", ("while", 1))]
 CONST_FILE = "src/lib.rs"
 
 
@@ -397,6 +399,7 @@ class Parser:
         self.t = toks
         self.i = 0
         self.skipped_asserts = 0
+        self.closures = set()          # parameters that are caller-supplied closures (procedures only)
 
     # -- token helpers
     def peek(self, k=0):
@@ -647,6 +650,44 @@ class Parser:
                 e = self.expr()
                 self.eat(";")
                 out.append("SSet %s %s" % (q(x), e))
+            elif self.kind() == "id" and self.peek(1) in ("+", "-") and self.peek(2) == "=":
+                x = self.eat()
+                op = {"+": "BAdd", "-": "BSub"}[self.eat()]
+                self.eat("=")
+                e = self.expr()
+                self.eat(";")
+                out.append("SSet %s (EBin %s (EVar %s) %s)" % (q(x), op, q(x), e))
+            elif tok == "if":
+                self.eat()
+                neg = False
+                if self.peek() == "!" and self.kind(1) == "id" and self.peek(1) in self.closures and self.peek(2) == "(":
+                    self.eat()
+                    neg = True
+                if self.kind() == "id" and self.peek() in self.closures and self.peek(1) == "(":
+                    f = self.eat()
+                    a = self.args()
+                    head = "SIfAsk %s %s [%s]" % ("true" if neg else "false", q(f), "; ".join(a))
+                else:
+                    if neg:
+                        raise Unsupported("negated condition")
+                    head = "SIf %s" % self.expr(no_struct=True)
+                self.eat("{")
+                th = self.proc_stmts()
+                self.eat("}")
+                el = []
+                if self.peek() == "else":
+                    self.eat()
+                    self.eat("{")
+                    el = self.proc_stmts()
+                    self.eat("}")
+                out.append("%s [%s] [%s]" % (head, "; ".join(th), "; ".join(el)))
+            elif self.kind() == "id" and self.peek(1) == "::" and self.kind(2) == "id" and self.peek(3) == "(":
+                self.eat()
+                self.eat()
+                f = self.eat()
+                a = self.args()
+                self.eat(";")
+                out.append("SDo %s [%s]" % (q(f), "; ".join(a)))
             elif self.kind() == "id" and self.peek(1) == "(":
                 f = self.eat()
                 a = self.args()
@@ -1391,19 +1432,36 @@ def emit(repo):
         out.append(";\n".join("  (%s, %s)" % (q(l), "true" if ok else "false") for l, ok, pth in frames if pred(pth)))
         out.append("].")
     procs = []
-    for path, fname, newname in PROCS:
+    for pr in PROCS:
+        path, fname, newname = pr[:3]
         try:
             src = strip_comments(open(os.path.join(repo, path)).read())
             found = find_fn(src, fname)
             if not found:
                 raise Unsupported("function not found")
             params, body = found
-            p = Parser(tokenize(body))
-            p.eat("{")
-            ss = p.proc_stmts()
-            p.eat("}")
-            if p.i != len(p.t):
-                raise Unsupported("trailing tokens")
+            toks = tokenize(body)
+            p = Parser(toks)
+            p.closures = set(param_names(params))
+            if len(pr) > 3:
+                kind, kth = pr[3]
+                hits = [i for i, t in enumerate(toks) if t[1] == kind]
+                if len(hits) < kth:
+                    raise Unsupported("%s #%d not found" % (kind, kth))
+                # parse exactly one statement starting there: wrap by stopping at the matching brace
+                p.i = hits[kth - 1]
+                p.eat("while")
+                c = p.expr(no_struct=True)
+                p.eat("{")
+                bodyss = p.proc_stmts()
+                p.eat("}")
+                ss = ["SWhile %s [%s]" % (c, "; ".join(bodyss))]
+            else:
+                p.eat("{")
+                ss = p.proc_stmts()
+                p.eat("}")
+                if p.i != len(p.t):
+                    raise Unsupported("trailing tokens")
             procs.append((newname, param_names(params), ss))
         except (Unsupported, ValueError, IndexError, OSError) as e:
             out.insert(2, "   - proc %s: NOT TRANSLATED (%s)" % (newname, e))
